@@ -101,7 +101,7 @@ def _hd_decision_table(rep, p, mod, fd, lp):
             rep.undecided('naming rules', lp, 'the naming loop body is not loop-free straight-line code')
             return
         for q in ps:
-            if q.kind != 'fall':
+            if q.kind not in ('fall', 'continue'):
                 rep.undecided('naming rules', q.node, 'the naming loop can leave early')
                 return
             contribs = []
@@ -390,11 +390,20 @@ def rule_hd_startwin(cx, rep, port):
     def star_texts(fd):
         """{star form: text that replaces it}: the dictionary entry for the form, embedded in whatever constant text the function
         concatenates around the lookup"""
-        dicts = [d for d in ast.walk(fd) if isinstance(d, ast.Dict) and d.keys and all(isinstance(k, ast.Constant) and isinstance(k.value, str) and '*' in k.value for k in d.keys)]
+        is_star_dict = lambda d: isinstance(d, ast.Dict) and d.keys and all(isinstance(k, ast.Constant) and isinstance(k.value, str) and '*' in k.value for k in d.keys)  # noqa: E731
+        dicts = [d for d in ast.walk(fd) if is_star_dict(d)]
+        aliases = set()
+        if not dicts:
+            # the table may be a module-level constant the function refers to by name
+            used = {x.id for x in ast.walk(fd) if isinstance(x, ast.Name)}
+            for st in p.modules[mod].body:
+                if isinstance(st, ast.Assign) and len(st.targets) == 1 and isinstance(st.targets[0], ast.Name) and st.targets[0].id in used and is_star_dict(st.value):
+                    dicts.append(st.value)
+                    aliases.add(st.targets[0].id)
         if len(dicts) != 1:
             return None
         d = dicts[0]
-        aliases = {n.targets[0].id for n in ast.walk(fd) if isinstance(n, ast.Assign) and n.value is d and isinstance(n.targets[0], ast.Name)}
+        aliases |= {n.targets[0].id for n in ast.walk(fd) if isinstance(n, ast.Assign) and n.value is d and isinstance(n.targets[0], ast.Name)}
         lookups = [x for x in ast.walk(fd) if isinstance(x, ast.Subscript) and (x.value is d or (isinstance(x.value, ast.Name) and x.value.id in aliases))]
         if len(lookups) != 1:
             return None
@@ -705,6 +714,30 @@ def rule_va_enum(cx, rep, port):
     else:
         oka = 'zero_based_idx = column_names.indexOf(column_name)' in ta and "'index': zero_based_idx" in ta
     rep.decide(oka, 'attribute variables', fa, 'a.name -> position of name in the header', 'a.name is no longer bound to the position of that name in the header')
+    # every a.<name> found in the query is looked up: each path through the loop over the found names either binds the variable
+    # or raises "unable to find column" - none skips a name on its spelling (a header column may be called NR, len, index ...)
+    from .. import pathsem
+    dst = fa.args.args[-1].arg
+    loops = [n for n in walk_no_nested(fa) if isinstance(n, ast.For) and any(isinstance(x, ast.Name) and x.id == dst for b in n.body for x in ast.walk(b))]
+    if len(loops) != 1:
+        rep.undecided('attribute lookup total', fa, 'loop over the attribute names found in the query not recognised')
+    else:
+        lps = pathsem.paths_of_block(loops[0].body)
+        if lps is None:
+            rep.undecided('attribute lookup total', loops[0], 'loop body is not straight-line code')
+        else:
+            skip = None
+            for q in lps:
+                binds = any(isinstance(t_, ast.Subscript) and is_name(t_.value, dst) for t_, _ in q.stores)
+                if q.kind == 'raise' or binds:
+                    continue
+                skip = q
+                break
+            if skip is not None:
+                conds = ' and '.join(('' if pol else 'not ') + '`{}`'.format(node_text(t_, 50)) for t_, pol in skip.conds) or 'always'
+                rep.violated('attribute lookup total', skip.node if skip.node is not None else loops[0], 'an a.<name> variable found in the query is neither bound nor rejected when {}: a header column of that name silently evaluates to something else'.format(conds))
+            else:
+                rep.holds('attribute lookup total', loops[0], 'every a.<name> of the query is bound to its column or rejected ({} path(s))'.format(len(lps)))
     td = node_text(fdv, 3000)
     okd = ('for i in range(len(column_names))' in td or 'for i in range(0, len(column_names))' in td) and 'column_name = column_names[i]' in td and td.count('index=i') + td.count("'index': i") >= 2
     rep.decide(okd, 'dictionary variables', fdv, 'a["name"] -> position i of the name', 'a["name"] is no longer bound to the position of that name in the header')
